@@ -29,14 +29,14 @@ for sid in ids:
         repo = "/repo"
         subprocess.check_call(["git", "-C", repo, "apply", patch])
     else:
-        repo = f"/tmp/seedrun-{sid}"
+        repo = f"/tmp/seedrun-{os.path.basename(V)}-{sid}"
         subprocess.call(["git", "-C", "/repo", "worktree", "remove", "--force", repo], stderr=subprocess.DEVNULL)
         subprocess.check_call(["git", "-C", "/repo", "worktree", "add", "-q", "--detach", repo, "HEAD"])
         subprocess.check_call(["git", "-C", repo, "apply", patch])
     try:
         for pid in props:
             env = dict(os.environ, VERIF_REPO=repo, VERIF_EVIDENCE_DIR=os.path.join(V, "build", "seeded-evidence", sid),
-                       VERIF_BUILD_DIR=os.path.join(V, "build", "seeded-build"), VERIF_GOCACHE=os.path.join(V, "build", "gocache"))
+                       VERIF_BUILD_DIR=os.path.join(V, "build", "seeded-build"), VERIF_GOCACHE=os.environ.get("VERIF_GOCACHE", os.path.join(V, "build", "gocache")))
             os.makedirs(env["VERIF_EVIDENCE_DIR"], exist_ok=True)
             t0 = time.time()
             p = subprocess.run([os.path.join(V, "check"), pid, "--tier", tier], cwd=V, env=env, stdout=subprocess.PIPE,
